@@ -30,6 +30,12 @@ REQUIRED_THEOREMS = [
     "TapkeeVerif.C10.preshift_lltsa_not_translation_invariant",   # regression witness of F-LLTSA-SHIFT
     "TapkeeVerif.C10.prefix_solver_sees_XMXt_refuted",      # regression witness of F-LIN-TRI (pre-fix routines)
     "TapkeeVerif.C10.prefix_lltsa_lhs_upper_eq",            # regression witness of F-LLTSA-CENTRE
+    "TapkeeVerif.C10.centredForm_align",
+    "TapkeeVerif.C10.lltsa_pencil_align",
+    "TapkeeVerif.C10.lltsa_solves_alignment_problem",
+    "TapkeeVerif.C10.belowCount_sound",
+    "TapkeeVerif.C10.belowCount_bounds_eigenvalues",
+    "TapkeeVerif.C10.bottom_certified",
 ]
 EXE = "model_c10"
 
@@ -203,5 +209,5 @@ def correspond(ctx):
     ctx.assumptions += [
         "sample-space matrices M are the C08 / C09 models evaluated on contract-checked oracle values (LDLT solve, local eigensolver, exp)",
         "approx-mode stages at K := Fix (2^-192), 2^-30 relative to the summand magnitude; exact mode = equality of dyadic values",
-        "soundness of the inertia count (Jacobi/Sylvester) is the shared spectral lemma, not re-proved here",
+        "inertia counts behind every spectral verdict: the exact rational LDL^T of Model/Cert.lean (Cert.inertiaPos, sound by Proofs/Inertia.inertiaPos_sound; belowCount_sound / belowCount_bounds_eigenvalues in Props) on sigma*B - A rounded to 64 significant bits after a power-of-two congruence scaling",
     ]
